@@ -462,6 +462,16 @@ def _evaluate_after(rec, snap, rng):
         exc = e
     rec.arm("value:rewritten-tree-evaluated")
     ME.decide("C05", after_root, after, ctx, res, exc)
+    if not names:
+        # a tree of constants has a value without any assignment: the other call forms of 'no assignment' too
+        for form in ((), (None,)):
+            res = exc = None
+            try:
+                res = after_root.evaluate(*form)
+            except Exception as e:
+                exc = e
+            rec.arm("value:rewritten-tree-evaluated-without-a-context")
+            ME.decide("C05", after_root, after, {}, res, exc)
 
 
 def _value_pair(rec, snap, arm, key_case, changed, sb, sa, rng, tol, what, raw=None):
@@ -582,6 +592,48 @@ def _equation(rec, snap, arm, key_case, changed, rng, tol, names):
 
 # ---------------- C04 (also used directly by parse-driven workloads)
 
+def _evaluates_differently(rec, sh, text, rng):
+    """'evaluates identically' taken literally for small trees of Python-typed constants: the library's own
+    evaluate() on the tree and on the re-parsed text, at one assignment -- both raise, or both return the same
+    number (1e-9 relative).  Returns a description of the disagreement, or None."""
+    if S.size(sh) > 30 or sh[0] == "Equal" or any(not str(tag).startswith("bu:") for tag, _ in S.constants(sh)):
+        return None
+    names = sorted(S.variables(sh))
+    ctx = {x: rng.choice([2, 3, 5, -3, 7, 0.5, 1, 4]) for x in names}
+    if X.magnitude_bits(sh, {k: X.Fraction(v) for k, v in ctx.items()}) is None:
+        return None
+
+    def outcome(make):
+        try:
+            t = make()
+            return ("value", t.evaluate(dict(ctx)))
+        except RecursionError:
+            return None
+        except Exception as e:
+            return ("raised", type(e).__name__)
+
+    from .. import contracts as _c
+
+    with _c.suspended():
+        a = outcome(lambda: S.build(sh))
+        b = outcome(lambda: PR._fresh_parse(text))
+    if a is None or b is None:
+        return None
+    rec.arm("print:evaluated-on-both-sides")
+    if a[0] != b[0]:
+        return f"at {ctx} the tree gives {a[1]!r:.60}, the re-parsed text {b[1]!r:.60}"
+    if a[0] == "value":
+        try:
+            x, y = float(a[1]), float(b[1])
+        except Exception:
+            return None
+        if x != x and y != y:
+            return None
+        if x != y and not abs(x - y) <= 1e-9 * max(abs(x), abs(y)):
+            return f"at {ctx} the tree evaluates to {a[1]!r:.40}, the re-parsed text to {b[1]!r:.40}"
+    return None
+
+
 def check_print(rec, sh, text, props, witness, origin):
     """print/re-parse oracle on one tree (shadow + its printed text)."""
     ok, why = PR.in_domain(sh)
@@ -606,6 +658,14 @@ def check_print(rec, sh, text, props, witness, origin):
     if v == "same":
         if S.size(sh) >= 2:
             rec.nontrivial(("print", text))
+        bad = _evaluates_differently(rec, sh, text, rng)
+        if bad:
+            w = dict(witness)
+            w.update({"printed": text, "verdict": "evaluates-differently", "detail": bad, "tree": S.to_json(sh),
+                      "summary": f"{origin}: tree printed as '{text}': the tree and the re-parsed text do not evaluate alike: {bad}"})
+            for p in props:
+                rec.violation(p, "print/evaluates-differently", "text form does not parse back to an equivalent expression", w)
+            return False
         return True
     rec.skip("print: " + d.split(" (")[0][:40])
     return None
